@@ -64,13 +64,21 @@ RULE = ('one case = (allow mode, main-source kind, reference mechanism, location
         "`allow == 'all'`/`url is None` at least once (a blocking mode actually examined a URL); distinct by "
         'canonical JSON of the case')
 TRUSTED = ['CPython urllib (urlopen/FileHandler/url2pathname), pathlib and the OS file system: the model '
-           're-implements urlsplit, unquote, quote_from_bytes and posixpath.normpath for byte strings and their '
-           'agreement with CPython is only tested by the correspondence run',
+           're-implements urlsplit, urlunsplit, unquote, quote(safe=...), posixpath.normpath and os.path.dirname for byte '
+           'strings; their agreement with CPython is tested string by string (op coding), and unquote∘quote = id, normpath '
+           'idempotence / no dot segments, normalize_url idempotence are proved on the model',
            'sys.addaudithook reports every file open and urllib request made by the interpreter',
-           'Windows drive / UNC / backslash location forms are answered `out-of-scope` by the model; for them only '
-           'the audit-trail evaluation of the property applies']
-ASSUMPTIONS = ['the sandbox base names a directory (not a document) in a symlink-free tree',
-               'location strings and the working directory contain no lone surrogates; the model works on UTF-8 bytes']
+           'Windows drive / UNC / backslash location forms and URLs whose percent-decoding is not valid UTF-8 are answered '
+           '`out-of-scope` / not rendered by the model; for them only the audit-trail evaluation of the property applies',
+           'the load-tree model covers include / redefine / override / import / uri-mapper chains of schema documents; '
+           'location hints of instances, locations= and on-demand namespace loading are checked per resource '
+           '(op resolve) and by the audit trail, not as trees',
+           "urlsplit's IPv6 bracket / NFKC netloc validation (ValueError) is not modelled"]
+ASSUMPTIONS = ['the root sandbox base names a directory, not a document (hypothesis hdir of trace_sandbox_confined), in a '
+               'symlink-free tree',
+               'location strings and the working directory contain no lone surrogates; the model works on UTF-8 bytes',
+               'accessControl models the check as it is in the code now (C12-F4 open: remote_render_counterexample); '
+               'resolveWith refuses every rendered non-local URL in local/sandbox mode, i.e. the repaired check']
 
 XS = 'http://www.w3.org/2001/XMLSchema'
 XSI = 'http://www.w3.org/2001/XMLSchema-instance'
@@ -834,6 +842,11 @@ def coding_cases(ctx: Ctx, drv: Optional[Driver]) -> None:
                 'quote_netloc': quote(t, safe='@:'), 'quote_query': quote(t, safe=';/?:@=&'),
                 'quote_local': quote(t, safe=':/\\'), 'class': cls}
         for k, v in impl.items():
+            if k == 'class' and ('[' in t or ']' in t):
+                # urlsplit raises ValueError for unbalanced IPv6 brackets in the netloc (the code then answers
+                # "not a URL" and nothing is fetched); the bracket validation is not modelled
+                ctx.count('coding:brackets-skipped')
+                continue
             ctx.traces += 1
             mv = m[k]
             if k in ('normpath', 'dirname'):
